@@ -43,6 +43,41 @@ harnesses! {
         assert!(!k.K.is_nan() && !n.n50.is_nan(), "C14:K and n50 are numbers");
         std::mem::forget((m, p, k, n));
     }
+
+    /// referentially closed model with positive sizes and non-negative data: every reported number is finite
+    #[kani::unwind(6)]
+    #[kani::stub(alloc::fmt::format, crate::stubs::fmt_stub)]
+    #[kani::stub(f32::round, crate::stubs::round_stub)]
+    #[kani::stub(bemodel::Model::compute_fshobst, crate::stubs::fshobst_stub)]
+    fn finite_when_sane(s) {
+        let mut m = Model::default();
+        m.cons.materials.push(Material { id: uid(1), name: String::new(), properties: MatProps::Resistance { resistance: s.g(7) * 0.5, vapour_diff: None } });
+        m.cons.wallcons.push(WallCons { id: uid(3), name: String::new(), layers: vec![Layer { material: uid(1), e: 0.25 }], absorptance: 0.6 });
+        m.cons.glasses.push(Glass { id: uid(31), name: String::new(), u_value: 0.5 + s.g(7) * 0.5, g_gln: s.g(4) * 0.25 });
+        m.cons.frames.push(Frame { id: uid(32), name: String::new(), u_value: 0.5 + s.g(7) * 0.5, absorptivity: 0.5 });
+        m.cons.wincons.push(WinCons { id: uid(33), name: String::new(), glass: uid(31), frame: uid(32), f_f: s.g(3) * 0.25, delta_u: 0.0, g_glshwi: None, c_100: 27.0 });
+        m.spaces.push(space(1, any_kind(s), true, 2.0 + s.g(2), 0.0, None));
+        m.spaces[0].multiplier = 1.0 + s.g(1);
+        let side = 1.0 + s.g(3);
+        m.walls.push(wall(10, BoundaryType::EXTERIOR, 3, 1, None, 180.0, rect(side, side)));
+        m.walls.push(wall(11, BoundaryType::EXTERIOR, 3, 1, None, 90.0, rect(side, 2.0)));
+        m.windows.push(Window { id: uid(40), name: String::new(), cons: uid(33), wall: uid(11), geometry: WinGeom { position: None, height: 0.5, width: 1.0, setback: 0.0 } });
+        m.thermal_bridges.push(ThermalBridge { id: uid(50), name: String::new(), kind: ThermalBridgeKind::CORNER, l: s.g(3), psi: s.g(2) * 0.5 });
+        m.meta.global_ventilation_l_s = if s.bool() { Some(10.0 + s.g(3)) } else { None };
+        m.meta.n50_test_ach = if s.bool() { Some(s.g(3)) } else { None };
+        let p = EnergyProps::from(&m);
+        let k = KData::from(&p);
+        let n = N50Data::from(&p);
+        let g = &p.global;
+        cover!(g.a_ref > 0.0, "habitable model");
+        cover!(g.a_ref == 0.0, "uninhabited space only");
+        assert!(g.a_ref.is_finite() && g.vol_env_gross.is_finite() && g.vol_env_net.is_finite() && g.compactness.is_finite() && g.occ_spaces_average_load.is_finite(), "C14:global figures of a sane model are finite");
+        assert!(k.K.is_finite() && k.summary.a.is_finite() && k.summary.au.is_finite(), "C14:K of a sane model is finite");
+        assert!(n.n50.is_finite() && n.n50_ref.is_finite() && n.walls_c.is_finite() && n.windows_c.is_finite(), "C14:n50 figures of a sane model are finite");
+        let w = p.walls.get(&uid(11)).unwrap();
+        assert!(w.u_value.map_or(false, |u| u.is_finite()) && w.area_net.is_finite(), "C14:element figures of a sane model are finite");
+        std::mem::forget((m, p, k, n));
+    }
 }
 
 /// dangling / nil links everywhere, polygon of `nv` vertices (concrete count), optional elements symbolic
